@@ -1222,6 +1222,28 @@ class Mailbox:
                 self.sequences = defaultdict(set)
                 self.mtime = start_mtime
 
+        # Messages we know about may be gone from the folder without the
+        # message count having gone down: we were killed in the middle of an
+        # expunge (the files removed, our record of it not yet committed) and
+        # mail was delivered since, or an MH tool removed them. Forget them
+        # the way `expunge()` does, otherwise their message keys stay in
+        # `msg_keys` and every later command that reaches them fails.
+        #
+        on_disk = set(msg_keys)
+        gone = [k for k in self.msg_keys if k not in on_disk]
+        for msg_key in sorted(gone, reverse=True):
+            which = self.msg_keys.index(msg_key)
+            del self.msg_keys[which]
+            del self.uids[which]
+            await self._dispatch_or_pend_notifications(
+                f"* {which + 1} EXPUNGE\r\n"
+            )
+        if gone:
+            self._rebuild_index_dicts()
+            for seq in self.sequences.keys():
+                for msg_key in gone:
+                    self.sequences[seq].discard(msg_key)
+
         # If we reach here we know that we have new messages. Find out
         # the lowest numbered new message and consider that message and
         # everything after it a new message.
